@@ -97,8 +97,8 @@ def native_build(srcs, tag, extra=(), defs=(), san=False, opt='-O1', libs=(), cx
     if rc != 0: raise Inconclusive('g++ failed (%s):\n%s' % (tag, se[-3000:]))
     return out
 
-def run_native(binpath, stdin_text='', args=(), timeout=120):
-    p = subprocess.run([binpath] + list(args), input=stdin_text, stdout=subprocess.PIPE, stderr=subprocess.PIPE, text=True, timeout=timeout)
+def run_native(binpath, stdin_text='', args=(), timeout=120, cwd=None):
+    p = subprocess.run([binpath] + list(args), input=stdin_text, stdout=subprocess.PIPE, stderr=subprocess.PIPE, text=True, timeout=timeout, cwd=cwd)
     return p.returncode, p.stdout, p.stderr
 
 def peak_rss_mb():
